@@ -14,9 +14,10 @@ RULE = ('documents drawn from the wfdoc grammar (text, escapes, \\\\, comments, 
         'several profiles (default, deep, twin, list-heavy, definition-heavy), plus the repository sample files and '
         'the TexSoup(...) literals of README/docs/docstrings/tests. Oracle: parse succeeds, str(soup)==source, and '
         'every node/argument/text leaf satisfies src[p:p+len(str(n))]==str(n). Non-trivial = >=3 distinct construct '
-        'kinds and nesting depth >=2; distinct by source text')
+        'kinds and nesting depth >=2; distinct by source text'
+        '. Also: synthetic long constructs (one-run paragraphs, comments and blank runs of 300..8200 characters, documents of 9K..70K characters), whole flat documents as ONE bracket / brace argument, and homogeneous chains nested 45..270 deep with closed-form expectations (all non-trivial)')
 ASSUMPTIONS = [
-    'hostile verbatim bodies only where the skip list reaches (top level, environment bodies): finding D6 is open',
+    'verbatim-like bodies are hostile wherever the generator places such an environment (since the D6 repair the skip list reaches items, groups, arguments and math)',
     'a bracket behind the group run after \\end{name} and a list inside a group after a math environment are excluded by construction (finding D11), counted',
     'corpus literals that do not parse are counted, not judged (documentation shows malformed input on purpose)',
 ]
